@@ -936,6 +936,123 @@ theorem foldl_importPair (σ : State) (hu : hasDup (σ.bets.map (·.uid)) = fals
       by_cases h : a.uid == y.1 <;> simp [h, Book.key, Book.addPair]
 
 -- ---------------------------------------------------------------------------------------------
+-- frames: which stores an import leaves alone
+
+/-- `a` and `b` agree on everything but the bet stores -/
+def SameButBet (a b : State) : Prop :=
+  a.bal = b.bal ∧ a.markets = b.markets ∧ a.mqueue = b.mqueue ∧ a.books = b.books ∧ a.obqueue = b.obqueue ∧
+  a.deposits = b.deposits ∧ a.withdrawals = b.withdrawals ∧ a.grants = b.grants ∧ a.height = b.height ∧ a.time = b.time
+
+theorem SameButBet.refl (a : State) : SameButBet a a := ⟨rfl, rfl, rfl, rfl, rfl, rfl, rfl, rfl, rfl, rfl⟩
+
+theorem SameButBet.trans {a b c : State} (h1 : SameButBet a b) (h2 : SameButBet b c) : SameButBet a c := by
+  obtain ⟨a1, a2, a3, a4, a5, a6, a7, a8, a9, a10⟩ := h1
+  obtain ⟨b1, b2, b3, b4, b5, b6, b7, b8, b9, b10⟩ := h2
+  exact ⟨a1.trans b1, a2.trans b2, a3.trans b3, a4.trans b4, a5.trans b5, a6.trans b6, a7.trans b7, a8.trans b8, a9.trans b9, a10.trans b10⟩
+
+theorem foldl_same {α : Type} (l : List α) (f : State → α → State) (hf : ∀ s x, SameButBet (f s x) s) (s : State) :
+    SameButBet (l.foldl f s) s := by
+  induction l generalizing s with
+  | nil => exact SameButBet.refl s
+  | cons x xs ih => exact (ih (f s x)).trans (hf s x)
+
+theorem importOneBet_same (g : BetGen) (s : State) (b : Bet) : SameButBet (importOneBet g s b) s := by
+  have A := foldl_same (g.pending.filter (fun p => p.1 == b.uid))
+    (fun (acc : State) p => { acc with pending := upsert pendKey (b.market, idOf g.uid2id b.uid, p.1, p.2) acc.pending })
+    (fun s x => ⟨rfl, rfl, rfl, rfl, rfl, rfl, rfl, rfl, rfl, rfl⟩) s
+  have B := foldl_same (g.settled.filter (fun p => p.1 == b.uid))
+    (fun (acc : State) p => { acc with settled := upsert pendKey (b.settleHeight, idOf g.uid2id b.uid, p.1, p.2) acc.settled })
+    (fun s x => ⟨rfl, rfl, rfl, rfl, rfl, rfl, rfl, rfl, rfl, rfl⟩)
+    ((g.pending.filter (fun p => p.1 == b.uid)).foldl
+      (fun (acc : State) p => { acc with pending := upsert pendKey (b.market, idOf g.uid2id b.uid, p.1, p.2) acc.pending }) s)
+  have C := B.trans A
+  unfold importOneBet
+  exact SameButBet.trans ⟨rfl, rfl, rfl, rfl, rfl, rfl, rfl, rfl, rfl, rfl⟩ C
+
+theorem importBet_same (g : BetGen) (s : State) : SameButBet (importBet g s) s := by
+  have A := foldl_same g.bets (importOneBet g) (importOneBet_same g) { s with betCount := g.count }
+  have B : SameButBet { s with betCount := g.count } s := ⟨rfl, rfl, rfl, rfl, rfl, rfl, rfl, rfl, rfl, rfl⟩
+  unfold importBet
+  exact SameButBet.trans ⟨rfl, rfl, rfl, rfl, rfl, rfl, rfl, rfl, rfl, rfl⟩ (A.trans B)
+
+/-- the order-book import leaves every store of the other modules alone -/
+def SameButOb (a b : State) : Prop :=
+  a.bal = b.bal ∧ a.markets = b.markets ∧ a.mqueue = b.mqueue ∧ a.bets = b.bets ∧ a.pending = b.pending ∧
+  a.settled = b.settled ∧ a.betCount = b.betCount ∧ a.deposits = b.deposits ∧ a.withdrawals = b.withdrawals ∧
+  a.grants = b.grants ∧ a.height = b.height ∧ a.time = b.time ∧
+  a.params.betBatch = b.params.betBatch ∧ a.params.betMin = b.params.betMin ∧ a.params.betFee = b.params.betFee ∧
+  a.params.houseMin = b.params.houseMin ∧ a.params.houseFee = b.params.houseFee ∧ a.params.houseMaxW = b.params.houseMaxW
+
+theorem SameButOb.refl (a : State) : SameButOb a a :=
+  ⟨rfl, rfl, rfl, rfl, rfl, rfl, rfl, rfl, rfl, rfl, rfl, rfl, rfl, rfl, rfl, rfl, rfl, rfl⟩
+
+theorem SameButOb.trans {a b c : State} (h1 : SameButOb a b) (h2 : SameButOb b c) : SameButOb a c := by
+  obtain ⟨a1, a2, a3, a4, a5, a6, a7, a8, a9, a10, a11, a12, a13, a14, a15, a16, a17, a18⟩ := h1
+  obtain ⟨b1, b2, b3, b4, b5, b6, b7, b8, b9, b10, b11, b12, b13, b14, b15, b16, b17, b18⟩ := h2
+  exact ⟨a1.trans b1, a2.trans b2, a3.trans b3, a4.trans b4, a5.trans b5, a6.trans b6, a7.trans b7, a8.trans b8, a9.trans b9,
+    a10.trans b10, a11.trans b11, a12.trans b12, a13.trans b13, a14.trans b14, a15.trans b15, a16.trans b16, a17.trans b17, a18.trans b18⟩
+
+theorem foldl_sameOb {α : Type} (l : List α) (f : State → α → State) (hf : ∀ s x, SameButOb (f s x) s) (s : State) :
+    SameButOb (l.foldl f s) s := by
+  induction l generalizing s with
+  | nil => exact SameButOb.refl s
+  | cons x xs ih => exact (ih (f s x)).trans (hf s x)
+
+theorem onBook_sameOb (s : State) (u : Nat) (f : Book → Book) : SameButOb (onBook s u f) s := by
+  unfold onBook
+  split
+  · exact ⟨rfl, rfl, rfl, rfl, rfl, rfl, rfl, rfl, rfl, rfl, rfl, rfl, rfl, rfl, rfl, rfl, rfl, rfl⟩
+  · exact SameButOb.refl s
+
+theorem setBookRec_sameOb (s : State) (r : BookRec) : SameButOb (setBookRec s r) s := by
+  unfold setBookRec
+  split <;> exact ⟨rfl, rfl, rfl, rfl, rfl, rfl, rfl, rfl, rfl, rfl, rfl, rfl, rfl, rfl, rfl, rfl, rfl, rfl⟩
+
+theorem foldl_importPair_sameOb (l : List (Nat × Nat × Nat)) (s r : State) (h : l.foldl importPair (some s) = some r) :
+    SameButOb r s := by
+  induction l generalizing s with
+  | nil => simp at h; subst h; exact SameButOb.refl s
+  | cons x xs ih =>
+    simp only [List.foldl_cons] at h
+    cases hx : importPair (some s) x with
+    | none =>
+      rw [hx] at h
+      have : ∀ l : List (Nat × Nat × Nat), l.foldl importPair none = none := by
+        intro l; induction l with
+        | nil => rfl
+        | cons y ys ihy => simpa [List.foldl_cons, importPair] using ihy
+      rw [this] at h; cases h
+    | some s' =>
+      rw [hx] at h
+      have hs' : SameButOb s' s := by
+        unfold importPair at hx
+        simp only at hx
+        split at hx
+        · cases hx
+        · simp only [Option.some.injEq] at hx
+          subst hx
+          exact onBook_sameOb _ _ _
+      exact (ih s' h).trans hs'
+
+theorem importOb_sameOb (g : ObGen) (s r : State) (h : importOb g s = some r) : SameButOb r s := by
+  unfold importOb at h
+  simp only at h
+  split at h
+  · cases h
+  · rename_i s7 h7
+    simp only [Option.some.injEq] at h
+    subst h
+    have h7' := foldl_importPair_sameOb _ _ _ h7
+    refine SameButOb.trans (b := s7) ⟨rfl, rfl, rfl, rfl, rfl, rfl, rfl, rfl, rfl, rfl, rfl, rfl, rfl, rfl, rfl, rfl, rfl, rfl⟩ ?_
+    refine h7'.trans ?_
+    refine (foldl_sameOb _ _ (fun s x => onBook_sameOb _ _ _) _).trans ?_
+    refine (foldl_sameOb _ _ (fun s x => onBook_sameOb _ _ _) _).trans ?_
+    refine (foldl_sameOb _ _ (fun s x => onBook_sameOb _ _ _) _).trans ?_
+    refine (foldl_sameOb _ _ (fun s x => onBook_sameOb _ _ _) _).trans ?_
+    refine (foldl_sameOb _ _ (fun s x => onBook_sameOb _ _ _) _).trans ?_
+    exact foldl_sameOb _ _ setBookRec_sameOb _
+
+-- ---------------------------------------------------------------------------------------------
 -- x/ovm proposal stores (sorted by id)
 
 def SortedIds (l : List Ovm.Proposal) : Prop := l.Pairwise (fun a b => a.id < b.id)
